@@ -245,7 +245,7 @@ CASE_DEADLINE = 60.0
 _held = {}
 
 
-WARM_KINDS = ("add", "remove", "add_annotator", "merge")
+WARM_KINDS = ("add", "remove", "add_annotator", "merge", "copy", "merge_out", "plus")
 
 
 def warm_continuum(spec, warm, kind):
@@ -267,6 +267,18 @@ def warm_continuum(spec, warm, kind):
         except Exception:  # noqa - the warm-up run is not judged
             pass
 
+    if how == "copy":
+        c0 = build_continuum(spec)
+        align(c0)
+        return c0.copy()
+    if how in ("merge_out", "plus") and len(nonempty) >= 1 and total >= 2:
+        # the continuum is the RESULT of an out-of-place merge of two parts (every annotator present in the left part)
+        i = nonempty[-1]
+        moved = anns[i][1][-1]
+        left = build_continuum({"annotators": [[a, (us[:-1] if k == i else us)] for k, (a, us) in enumerate(anns)]})
+        right = build_continuum({"annotators": [[anns[i][0], [moved]]]})
+        align(left)
+        return left.merge(right, in_place=False) if how == "merge_out" else left + right
     if how == "remove" and nonempty:
         i = nonempty[0]
         extra = [57, 59, anns[i][1][0][2]]
